@@ -27,6 +27,11 @@ def main():
         if case % 3 == 0:
             # feature names that merely START with the label's name / contain it are ordinary features
             base = base + [str(x) for x in rng.choice(['label_count', 'labelled', 'xlabel', 'label2'], size=2, replace=False)]
+        if case % 3 == 1:
+            # names that contain the letters of the separator (BRAND, LANDING_PAGE) are ordinary constituents: the separator of an
+            # interaction name is ' AND ' with its blanks
+            base = base + [str(x) for x in rng.choice(['BRAND', 'LANDING_PAGE', 'HANDSET', 'AND', 'xANDy'], size=2, replace=False)]
+            base = base[-2:] + base[:-2]
         feats = list(base)
         if order > 1 and nf >= 2:
             # interactions present in the table need not have the arity of the flag (a reference model adds pairs to an order-3 run)
@@ -101,12 +106,13 @@ def main():
         if agg is not None:
             store = {}
             for f in out['Feature']:
-                if 'AND' in f:
+                if ' AND ' in f.split('-')[0]:
                     for el in f.split('-')[0].split(' AND '):
                         store.setdefault(el, []).append(got[f])
             exp_agg = {k: statistics.median(v) for k, v in store.items()}
             got_agg = dict(zip(agg['Feature'], agg.iloc[:, 1])) if len(agg) else {}
-            if sorted(got_agg) != sorted(exp_agg) or any(not approx(got_agg[k], exp_agg[k], 1e-9) for k in exp_agg):
+            # keys read back from the table may be NaN (an empty constituent name): compare them as text
+            if sorted(map(str, got_agg)) != sorted(map(str, exp_agg)) or any(not approx(got_agg[k], exp_agg[k], 1e-9) for k in exp_agg):
                 h.fail('handle_interaction_order.median_per_constituent', wit, f'{got_agg} vs {exp_agg}')
     h.bounded_note('feature_singles.tsv / feature_singles_aggregated.tsv of the real summary task vs an independent reference '
                    '(annotated and plain names, duplicated orientations, negative scores, several batches, MI / non-MI heuristics)',
